@@ -165,6 +165,19 @@ example : ∃ v s', createNode exGWT ⟨.grow, 3⟩ 5 (.ann .int (.depIntRangeLo
     (show resIsOk (createNode exGWT ⟨.grow, 3⟩ 5 (.ann .int (.depIntRangeLo "a" 9)) ⟨0, 0⟩ [("a", .int 7)]
       (exStWT [1])) = true by decide +kernel)
   exact ⟨v, s', h, C02_generate_sat _ _ _ _ _ _ _ _ _ _ (by decide) (by decide) h⟩
+-- a refinement that reads TWO siblings, named (width, lower bound) whatever the order of the fields:
+-- Dependent("w,lo", λ w lo. IntRange(lo, lo + w)) with lo = 100 declared before w = 3
+example : ∃ v s', createNode exGWT ⟨.grow, 3⟩ 5 (.ann .int (.depIntRangeSpan "w" "lo")) ⟨0, 0⟩
+      [("lo", .int 100), ("w", .int 3)] (exStWT [2]) = .ok v s' ∧
+    sat (.depIntRangeSpan "w" "lo") [("lo", .int 100), ("w", .int 3)] v = true := by
+  obtain ⟨v, s', h⟩ := (resIsOk_iff _).1
+    (show resIsOk (createNode exGWT ⟨.grow, 3⟩ 5 (.ann .int (.depIntRangeSpan "w" "lo")) ⟨0, 0⟩
+      [("lo", .int 100), ("w", .int 3)] (exStWT [2])) = true by decide +kernel)
+  exact ⟨v, s', h, C02_generate_sat _ _ _ _ _ _ _ _ _ _ (by decide) (by decide) h⟩
+-- the two siblings are not interchangeable: 102 lies in [lo, lo + w] = [100, 103], not in [w, w + lo] = [3, 103] read the other way round ... 50 does
+example : sat (.depIntRangeSpan "w" "lo") [("lo", .int 100), ("w", .int 3)] (.int 102) = true ∧
+    sat (.depIntRangeSpan "w" "lo") [("lo", .int 100), ("w", .int 3)] (.int 50) = false ∧
+    sat (.depIntRangeSpan "lo" "w") [("lo", .int 100), ("w", .int 3)] (.int 50) = true := by decide
 -- a refined field of the example grammar: `Vec.xs` at position 1 depends on `Vec.n`
 example : (exGWT.cls 3).fields[1]? = some ("xs", .ann (.list (.cls 0)) (.depListSize "n")) := rfl
 example : siblings (exGWT.cls 3).fields [.int 2, .list 0 0 [], .tuple [], .str "a"] 1 = [("n", .int 2)] := rfl
